@@ -27,6 +27,7 @@
    Names.  A path segment is an N whose value determines the kind of resource that may carry it:
      s mod 4 = 0  folder named like module (s / 4)        s mod 4 = 1  file "<module (s/4)>.py"
      s mod 4 = 2  a non-Python file                       s = 3        "__init__.py"
+     s mod 4 = 3, s <> 3  an ignored file "<module>.py~" (default ignored_resources pattern "*~")
    (the harness only ever creates resources that respect this discipline, so that rope's
    File/Folder resource classes, which take part in resource equality, are determined by the path).
 
@@ -100,9 +101,13 @@ Notation ind := (N * N)%type.
 Definition ind_of_node (full : bool) (n : node) : ind :=
   (node_mt n, if full then match n with File c _ => csize c | Dir _ => 0%N end else 0%N).
 
-(* the set of files (Project.get_files; ignored-resource patterns are outside the model) *)
+(* a name matching the default ignored_resources pattern "*~" (an editor backup "<module>.py~"): s mod 4 = 3
+   apart from "__init__.py".  Ignored files exist, are written, moved and removed through rope like any other
+   (every observer is told), but are not part of the file list and are not Python files. *)
+Definition is_ignored_seg (s : N) : bool := N.eqb (N.modulo s 4) 3 && negb (N.eqb s 3).
+(* the set of files: Project.get_files skips ignored resources *)
 Definition files_of (d : disk) : gset (list N) :=
-  dom (filter (fun kv : list N * node => isfile_node kv.2 = true) d).
+  dom (filter (fun kv : list N * node => isfile_node kv.2 && negb (is_ignored_seg (last_seg kv.1)) = true) d).
 (* PyPackage._get_child_resources: a dict from module names to the sub-folders and the .py files other than
    __init__.py of folder r; when folder "n" and file "n.py" both exist the file is listed later (sorted
    listing) and replaces the folder *)
@@ -641,3 +646,38 @@ Fixpoint ext_sound_b (s : state) (ops : list op) : bool :=
   | o :: r => bool_decide (ext_ok s o) && ext_sound_b (step s o) r
   end.
 
+
+(* ------------------------------------------------------ queries between the changes and validate *)
+(* Changes behind rope's back may be interleaved with queries before project.validate() is called (an IDE
+   keeps asking while files change under it).  The answers in between may be out of date; what matters is
+   that validate still catches up. *)
+Inductive pstep :=
+| PX (x : xop)        (* a change behind rope's back *)
+| PQ (q : query).     (* a query on the long-lived project *)
+Definition pend_step (s : state) (p : pstep) : state :=
+  match p with PX x => xstep s x | PQ q => (run_query s q).1 end.
+
+(* the modification does not bring the indicator of a watched resource (back) to the stored value, unless
+   it is the stored value already and the resource is unchanged: every modification of a watched resource
+   changes a component of its (mtime, size) indicator, relative to what rope stored *)
+Definition x_sound (s : state) (x : xop) : Prop :=
+  map_Forall (fun r w => match w with
+                         | Some i => stampw (xstep s x) r = Some i ->
+                                     stampw s r = Some i /\ rview (dsk (xstep s x)) r = rview (dsk s) r
+                         | None => True
+                         end) (watched s).
+Global Instance x_sound_dec s x : Decision (x_sound s x).
+Proof. unfold x_sound. apply map_Forall_dec. intros r [i|]; apply _. Defined.
+
+Fixpoint pend_sound (s : state) (ps : list pstep) : Prop :=
+  match ps with
+  | [] => True
+  | PX x :: r => x_sound s x /\ pend_sound (xstep s x) r
+  | PQ q :: r => pend_sound (run_query s q).1 r
+  end.
+Fixpoint pend_sound_b (s : state) (ps : list pstep) : bool :=
+  match ps with
+  | [] => true
+  | PX x :: r => bool_decide (x_sound s x) && pend_sound_b (xstep s x) r
+  | PQ q :: r => pend_sound_b (run_query s q).1 r
+  end.
